@@ -75,6 +75,7 @@ def _case(draw, tier):
         "decoys": decoys,
         "prefixes": prefixes,
         "collide": draw(st.sampled_from([False, False, True])),
+        "crossed": draw(st.sampled_from([False, False, True])),
         "fmt": draw(st.sampled_from(["tsv", "tsv", "parquet"])),
         "key": draw(st.integers(1, 4)),
         "conf_chunk": draw(st.sampled_from([None, 1, 2, 3, 7, 16, 50])),
@@ -128,7 +129,7 @@ def check(case):
     with scratch_dir() as tmp:
         psms, inputs, scores = [], [], []
         for ci, coll in enumerate(case["colls"]):
-            df, meta = datagen.psm_frame(case["seed"] + 101 * ci, coll["mults"], key_arity=case["key"], colliding_keys=bool(case.get("collide")), n_noise=1,
+            df, meta = datagen.psm_frame(case["seed"] + 101 * ci, coll["mults"], key_arity=case["key"], colliding_keys=bool(case.get("collide")), crossed_levels=bool(case.get("crossed")), n_noise=1,
                                          file_index=ci, with_rid=False, n_peptides=case["n_pep"],
                                          label_enc=case["label_enc"], extra_levels=case["extra"])
             path = tmp / f"in{ci}{ext}"
@@ -225,6 +226,8 @@ def check(case):
         classes.append("no-prefixes" + ("-empty-string" if case["seed"] % 2 else "-none"))
     if case["extra"]:
         classes.append("extra-levels")
+    if case.get("crossed") and len(case["extra"]) >= 2:
+        classes.append("level-columns-not-nested-equal-cardinality")
     if case.get("collide") and case["key"] in (2, 3):
         classes.append("spectrum-keys-equal-when-concatenated")
     if case["ties"]:
@@ -402,8 +405,11 @@ def _check_tool(case, src, tmp, counters, brew_rollup, mpeps):
     saved = mpeps.PEP_ALGORITHM["qvality"]
     mpeps.PEP_ALGORITHM["qvality"] = mpeps.PEP_ALGORITHM["verif_stub"]
     try:
-        guarded(brew_rollup.main, ["--level", base, "--src_dir", str(src), "--dest_dir", str(out), "--verbosity", "0"],
-                sig="brew_rollup")
+        # the output root may be a string the input file names merely begin with ("c" vs. "c0.targets.psms"): only files
+        # named "<root>.<...>" are the tool's own earlier outputs
+        root = "c" if case["seed"] % 2 else "rollup"
+        guarded(brew_rollup.main, ["--level", base, "--src_dir", str(src), "--dest_dir", str(out), "--verbosity", "0"]
+                + (["--file_root", root] if root != "rollup" else []), sig="brew_rollup")
     finally:
         mpeps.PEP_ALGORITHM["qvality"] = saved
     have_extra = case["extra"] if case["rollup"] else []
@@ -416,8 +422,8 @@ def _check_tool(case, src, tmp, counters, brew_rollup, mpeps):
     tool_levels = [lv for lv in compute_rollup_levels(base if base == "psm" else "peptide") if lv in lv_cols]
     for lv in tool_levels:
         src_col = lv_cols[lv]
-        tf = out / f"rollup.targets.{lv}s"
-        dfp = out / f"rollup.decoys.{lv}s"
+        tf = out / f"{root}.targets.{lv}s"
+        dfp = out / f"{root}.decoys.{lv}s"
         require(tf.exists() and dfp.exists(), "tool-files", f"rollup output for level {lv} missing: {sorted(p.name for p in out.iterdir())}")
         got = {}
         for f, dec in ((tf, False), (dfp, True)):
